@@ -11,6 +11,12 @@ code -> spec : the COMPLETE table of the shipped maps: every syntax note of ever
                maps.xml x every presence pattern of the mentioned positions x every segment length
                0..element count is run through the real is_syntax_valid and the real segment_if.is_valid of
                that node; the log is validated by TLC against the definition (T_Syntax.tla).
+               The notes a segment is judged by are the <syntax> texts of the map XML itself, read from the
+               file independently of pyx12's loader (lib/mapexport.export, surrounding white space removed);
+               what the loaded node enforces (node.syntax) is logged next to them: a well-formed note of the
+               XML that the loaded node does not enforce is rejected (note_not_loaded), so is an enforced
+               entry that no note of the XML stands for (split), and segment_if.is_valid is judged by the
+               notes of the XML, not by what survived loading.
 Python only builds inputs, projects what the real code did to JSON and compares for equality with TLC's
 verdicts; what is right or wrong is decided by spec/Syntax.tla.
 """
@@ -34,6 +40,7 @@ import pyx12.params
 import pyx12.segment
 import pyx12.syntax
 import xml.etree.ElementTree as ET
+import mapexport
 
 PID = 'C14'
 
@@ -48,25 +55,8 @@ def map_files():
     return names
 
 
-class _RecordSplit(object):
-    """while a map is loaded, remember which text segment_if._split_syntax was given and what it returned"""
-    def __enter__(self):
-        self.orig = orig = pyx12.map_if.segment_if._split_syntax
-
-        def rec(node, text):
-            r = orig(node, text)
-            node.__dict__.setdefault('_c14_notes', []).append((text, r))
-            return r
-        pyx12.map_if.segment_if._split_syntax = rec
-        return self
-
-    def __exit__(self, *a):
-        pyx12.map_if.segment_if._split_syntax = self.orig
-
-
 def load_map(fname):
-    with _RecordSplit():
-        return pyx12.map_if.load_map_file(fname, pyx12.params.params())
+    return pyx12.map_if.load_map_file(fname, pyx12.params.params())
 
 
 def segment_nodes(m):
@@ -87,17 +77,36 @@ def segment_nodes(m):
     return out
 
 
-def node_notes(node):
-    """[(text, stype, spos, syn-list object of node.syntax)] for the notes the node really evaluates"""
-    kept = [(t, r) for (t, r) in getattr(node, '_c14_notes', []) if r is not None]
-    if len(kept) != len(node.syntax):
-        raise vlib.MachineryError('cannot align note texts with node.syntax for %s' % node.get_path())
-    res = []
-    for (t, r), syn in zip(kept, node.syntax):
-        if r is not syn and r != syn:
-            raise vlib.MachineryError('cannot align note texts with node.syntax for %s' % node.get_path())
-        res.append((t, str(syn[0]), [int(x) for x in syn[1:]], syn))
-    return res
+def xml_notes(fname, nodes):
+    """per loaded segment node: the <syntax> texts that the map FILE writes for that segment (surrounding white
+    space removed), read from the XML independently of the loader; aligned by node path (document order within
+    one path)"""
+    bypath = collections.OrderedDict()
+    for n in mapexport.export(fname)['nodes']:
+        if n['kind'] == 'seg':
+            bypath.setdefault(n['path'], []).append([(t or '').strip() for t in n.get('syntax', [])])
+    out = []
+    used = collections.Counter()
+    for node in nodes:
+        path = node.get_path()
+        k = used[path]
+        used[path] += 1
+        if path not in bypath or k >= len(bypath[path]):
+            raise vlib.MachineryError('%s: loaded segment node %s has no counterpart in the map XML' % (fname, path))
+        out.append(bypath[path][k])
+    if any(used[p] != len(v) for p, v in bypath.items()):
+        raise vlib.MachineryError('%s: segments of the map XML and loaded segment nodes cannot be aligned' % fname)
+    return out
+
+
+def enforced(node):
+    """[(stype, spos, entry of node.syntax)]: what the loaded node really enforces"""
+    return [(str(syn[0]), [int(x) for x in syn[1:]], syn) for syn in node.syntax]
+
+
+def mentioned(text):
+    """positions a note text mentions - lenient, used for INPUT construction only (which patterns to try)"""
+    return [int(x) for x in re.findall(r'\d\d', text[1:]) if int(x) >= 1]
 
 
 def sample_value(node):
@@ -165,10 +174,10 @@ def syn_result(seg, syn):
         return 'exc'
 
 
-def observe_case(node, notes, length, values, full):
+def observe_case(node, syns, length, values, full):
     """run the real code on one data segment; returns the logged case (without len/pr/fill) or None"""
     seg, text = build_segment(node.id, length, values)
-    case = {'syn': [syn_result(seg, n[3]) for n in notes], 'text': text}
+    case = {'syn': [syn_result(seg, syn) for syn in syns], 'text': text}
     if not full:
         return case
     saved = node.syntax
@@ -202,11 +211,11 @@ def subsets(items):
             yield c
 
 
-def cases_for_node(node, notes, n, mode, opts, rnd):
+def cases_for_node(node, poslists, n, mode, opts, rnd):
     """the (length, present positions, fill) triples to run on this node"""
     want = collections.OrderedDict()
     usage_n = set(c.seq for c in node.children if getattr(c, 'usage', None) == 'N')
-    for (_t, _st, pos, _syn) in notes:
+    for pos in poslists:
         for length in range(0, n + 1):
             reach = [p for p in pos if p <= length]
             for s in subsets(reach):
@@ -215,8 +224,8 @@ def cases_for_node(node, notes, n, mode, opts, rnd):
                     others = [p for p in range(1, length + 1) if p not in pos and p not in usage_n]
                     if others:
                         want[(length, frozenset(s) | frozenset(others), 1)] = None
-    if mode == 'full' and len(notes) > 1 and opts['combined']:
-        union = sorted(set(p for nt in notes for p in nt[2] if p <= n))
+    if mode == 'full' and len(poslists) > 1 and opts['combined']:
+        union = sorted(set(p for pos in poslists for p in pos if p <= n))
         if len(union) <= 6:
             pats = [frozenset(s) for s in subsets(union)]
         else:
@@ -240,31 +249,43 @@ def _record_map(arg):
     recs = []
     seen_sig = set()
     skipped = 0
-    for idx, node in enumerate(segment_nodes(m)):
-        if not node.syntax:
+    nodes = segment_nodes(m)
+    from_xml = xml_notes(fname, nodes)
+    for idx, node in enumerate(nodes):
+        xn = from_xml[idx]
+        enf = enforced(node)
+        if not xn and not enf:
             continue
-        notes = node_notes(node)
         n = node.get_child_count()
+        cols = list(range(len(enf)))
         if mode == 'syn':
-            # signatures only: one record per distinct (note, element count) of this map, is_syntax_valid only
-            notes = [nt for nt in notes if (nt[0], n) not in seen_sig]
-            seen_sig.update((nt[0], n) for nt in notes)
-            if not notes:
-                continue
+            # signatures only: is_syntax_valid once per distinct (enforced entry, element count) of this map
+            cols = [y for y in cols if (enf[y][0], tuple(enf[y][1]), n) not in seen_sig]
+            seen_sig.update((enf[y][0], tuple(enf[y][1]), n) for y in cols)
+        poslists = [enf[y][1] for y in cols]
+        if mode == 'full':
+            # the patterns of the notes the XML writes are tried whether or not the loaded node enforces them
+            poslists += [p for p in (mentioned(t) for t in xn) if p and p not in poslists]
         children = {c.seq: c for c in node.children}
         cases = []
-        for (length, present, fill) in cases_for_node(node, notes, n, mode, opts, rnd):
+        for (length, present, fill) in cases_for_node(node, poslists, n, mode, opts, rnd):
             values = {p: sample_value(children[p]) for p in present if p in children}
             if len(values) != len(present):
                 raise vlib.MachineryError('%s %s: no element node for a position <= element count' % (fname, node.get_path()))
-            c = observe_case(node, notes, length, values, mode == 'full')
+            c = observe_case(node, [enf[y][2] for y in cols], length, values, mode == 'full')
             if c.get('chk') is False:
                 skipped += 1
             c.update({'len': length, 'pr': sorted(present), 'fill': fill})
             cases.append(c)
         recs.append({'map': fname, 'path': node.get_path(), 'idx': idx, 'seg': node.id, 'n': n, 'mode': mode,
-                     'notes': [{'text': t, 'stype': st, 'spos': sp} for (t, st, sp, _s) in notes], 'cases': cases})
+                     'xnotes': xn, 'enf': [{'stype': st, 'spos': sp} for (st, sp, _s) in enf],
+                     'cols': [y + 1 for y in cols], 'cases': cases})
     return {'map': fname, 'loaded': True, 'segs': recs, 'skipped': skipped}
+
+
+def rec_sig(rec, col):
+    e = rec['enf'][col - 1]
+    return (e['stype'], tuple(e['spos']), rec['n'])
 
 
 def record_table(tier):
@@ -278,23 +299,24 @@ def record_table(tier):
         chosen = set(files)
         opts = {'fill': True, 'combined': 62}
     res = vlib.parallel_map(_record_map, [(f, 'full' if f in chosen else 'syn', opts) for f in files])
-    # quick tier: keep one is_syntax_valid record per distinct (note, element count) over all maps
+    # quick tier: keep the is_syntax_valid cases of one record per distinct (enforced entry, element count) over all
+    # maps; every record stays in the log (XML notes against what the loaded node enforces), with or without cases
     seen = set()
     for r in res:
         for rec in r['segs']:
             if rec['mode'] == 'full':
-                seen.update((nt['text'], rec['n']) for nt in rec['notes'])
+                seen.update(rec_sig(rec, y) for y in rec['cols'])
     out = []
     for r in res:
         for rec in r['segs']:
             if rec['mode'] == 'syn':
-                keep = [j for j, nt in enumerate(rec['notes']) if (nt['text'], rec['n']) not in seen]
+                keep = [x for x, y in enumerate(rec['cols']) if rec_sig(rec, y) not in seen]
+                seen.update(rec_sig(rec, rec['cols'][x]) for x in keep)
                 if not keep:
-                    continue
-                seen.update((rec['notes'][j]['text'], rec['n']) for j in keep)
-                if len(keep) != len(rec['notes']):
-                    rec = dict(rec, notes=[rec['notes'][j] for j in keep],
-                               cases=[dict(c, syn=[c['syn'][j] for j in keep]) for c in rec['cases']])
+                    rec = dict(rec, cols=[], cases=[])
+                elif len(keep) != len(rec['cols']):
+                    rec = dict(rec, cols=[rec['cols'][x] for x in keep],
+                               cases=[dict(c, syn=[c['syn'][x] for x in keep]) for c in rec['cases']])
             out.append(rec)
     return res, out, sorted(chosen)
 
@@ -305,7 +327,7 @@ def _tlc_batch(arg):
     d = vlib.scratch('c14tr')
     try:
         path = os.path.join(d, 'trace.json')
-        slim = [{'mode': r['mode'], 'notes': r['notes'],
+        slim = [{'mode': r['mode'], 'xnotes': r['xnotes'], 'enf': r['enf'], 'cols': r['cols'],
                  'cases': [{k: v for k, v in c.items() if k != 'text'} for c in r['cases']]} for r in recs]
         vlib.write_json(path, {'segs': slim})
         return run_tlc('T_Syntax', 'SPECIFICATION Spec\nINVARIANT Report\n', env={'TRACE_FILE': path}, workers=1,
@@ -330,16 +352,22 @@ def split_batches(recs, nb):
 
 
 def describe(rec, k, j, clause):
-    nt = rec['notes'][j - 1] if 1 <= j <= len(rec['notes']) else {'text': '?'}
-    if k == 0:
-        return ('%s %s: note %r was split into %s %s by segment_if._split_syntax, which is not what the note text says'
-                % (rec['map'], rec['path'], nt['text'], nt.get('stype'), nt.get('spos')))
+    nx = len(rec['xnotes'])
+    enf = ['%s%s' % (e['stype'], e['spos']) for e in rec['enf']]
+    if clause == 'split':
+        e = rec['enf'][j - nx - 1] if nx < j <= nx + len(rec['enf']) else {}
+        return ('%s %s: the loaded segment node enforces %s %s, which none of the notes %s written in the map XML says'
+                % (rec['map'], rec['path'], e.get('stype'), e.get('spos'), rec['xnotes']))
+    text = rec['xnotes'][j - 1] if 1 <= j <= nx else '?'
+    if clause == 'note_not_loaded':
+        return ('%s %s: the map XML writes the syntax note %r for this segment, but the loaded segment node does not enforce it '
+                '(node.syntax = %s): the note was lost while the map was loaded' % (rec['map'], rec['path'], text, enf))
     c = rec['cases'][k - 1]
-    what = 'is_syntax_valid said %s' % c['syn'][j - 1]
+    what = 'is_syntax_valid per enforced entry %s said %s' % ([enf[y - 1] for y in rec['cols']], c['syn'])
     if 'valid' in c:
         what += '; segment_if.is_valid -> %s (without notes %s), errors added by the notes: %s' % (c['valid'], c['base'], c['errs'])
-    return ('%s %s: note %s of notes %s on segment %s (length %d, present %s): %s - rejected by the definition at clause %s'
-            % (rec['map'], rec['path'], nt['text'], [x['text'] for x in rec['notes']], c.get('text'), c['len'], c['pr'], what, clause))
+    return ('%s %s: note %s of the notes %s of the map XML on segment %s (length %d, present %s): %s - rejected by the definition at clause %s'
+            % (rec['map'], rec['path'], text, rec['xnotes'], c.get('text'), c['len'], c['pr'], what, clause))
 
 
 def validate_table(chk, recs, label, nb=None):
@@ -368,7 +396,7 @@ def validate_table(chk, recs, label, nb=None):
             chk.violation({'clause': 'trace_' + clause, 'type': typ}, describe(rec, k, j, clause),
                           {'kind': 'trace', 'map': rec['map'], 'idx': rec['idx'], 'path': rec['path'], 'mode': rec['mode'],
                            'len': c['len'] if c else 0, 'pr': c['pr'] if c else [], 'note': j, 'clause': clause,
-                           'observed': c if c else rec['notes']})
+                           'observed': c if c else {'xml_notes': rec['xnotes'], 'enforced_by_loaded_node': rec['enf']}})
     return total_rej
 
 
@@ -512,7 +540,7 @@ def _perm(n, k):
 def selftest(chk, recs):
     """corrupt logged fields of a few records: T_Syntax must reject each corruption"""
     import copy
-    full = [r for r in recs if r['mode'] == 'full' and r['cases'] and all(c['chk'] for c in r['cases'])][:1]
+    full = [r for r in recs if r['mode'] == 'full' and r['cases'] and r['enf'] and all(c['chk'] for c in r['cases'])][:1]
     if not full:
         return
     r0 = copy.deepcopy(full[0])
@@ -523,7 +551,7 @@ def selftest(chk, recs):
     want.append(('missed', 'false_alarm'))
     b = copy.deepcopy(r0)
     kb = next((k for k, c in enumerate(b['cases']) if c['chk'] and not c['errs']), 0)
-    b['cases'][kb]['errs'] = b['cases'][kb]['errs'] + [{'c': '2', 'p': b['notes'][0]['spos'][0]}]
+    b['cases'][kb]['errs'] = b['cases'][kb]['errs'] + [{'c': '2', 'p': b['enf'][0]['spos'][0]}]
     want.append(('spurious_error',))
     c_ = copy.deepcopy(r0)
     kc = next((k for k, c in enumerate(c_['cases']) if c['errs']), None)
@@ -531,9 +559,15 @@ def selftest(chk, recs):
         c_['cases'][kc]['errs'][0]['c'] = '10' if c_['cases'][kc]['errs'][0]['c'] == '2' else '2'
         want.append(('err_code',))
     d = copy.deepcopy(r0)
-    d['notes'][0]['spos'] = d['notes'][0]['spos'][::-1]
+    d['enf'][0]['spos'] = d['enf'][0]['spos'][::-1]
     want.append(('split',))
-    trace = [a, b] + ([c_] if kc is not None else []) + [d]
+    e = copy.deepcopy(r0)                 # the loaded node lost its last note
+    e['enf'] = e['enf'][:-1]
+    e['cols'] = e['cols'][:-1]
+    for c in e['cases']:
+        c['syn'] = c['syn'][:-1]
+    want.append(('note_not_loaded',))
+    trace = [a, b] + ([c_] if kc is not None else []) + [d, e]
     res = _tlc_batch(('selftest', trace))
     if res.error or res.violated or not res.payloads.get('REJECTS'):
         raise vlib.MachineryError('binding self-test: T_Syntax failed\n' + (res.error or res.out[-1500:]))
@@ -560,22 +594,31 @@ def do_replay(path):
         print('failing clauses: %s' % (bad or 'none'))
         return 1 if bad else 0
     m = load_map(obj['map'])
-    node = segment_nodes(m)[obj['idx']]
-    notes = node_notes(node)
-    children = {c.seq: c for c in node.children}
-    values = {p: sample_value(children[p]) for p in obj['pr']}
-    c = observe_case(node, notes, obj['len'], values, True)
-    c.update({'len': obj['len'], 'pr': obj['pr'], 'fill': 0})
+    nodes = segment_nodes(m)
+    node = nodes[obj['idx']]
+    xn = xml_notes(obj['map'], nodes)[obj['idx']]
+    enf = enforced(node)
     rec = {'map': obj['map'], 'path': node.get_path(), 'idx': obj['idx'], 'n': node.get_child_count(), 'mode': 'full',
-           'notes': [{'text': t, 'stype': st, 'spos': sp} for (t, st, sp, _s) in notes], 'cases': [c]}
+           'xnotes': xn, 'enf': [{'stype': st, 'spos': sp} for (st, sp, _s) in enf],
+           'cols': list(range(1, len(enf) + 1)), 'cases': []}
+    c = None
+    if obj.get('clause') not in ('split', 'note_not_loaded'):
+        children = {c.seq: c for c in node.children}
+        values = {p: sample_value(children[p]) for p in obj['pr']}
+        c = observe_case(node, [e[2] for e in enf], obj['len'], values, True)
+        c.update({'len': obj['len'], 'pr': obj['pr'], 'fill': 0})
+        rec['cases'] = [c]
     res = _tlc_batch(('replay', [rec]))
     if res.error or not res.payloads.get('REJECTS'):
         raise vlib.MachineryError('T_Syntax failed on the replay record\n' + (res.error or res.out[-1500:]))
     rej = res.payloads['REJECTS'][-1]['rej']
-    print('%s %s notes %s' % (obj['map'], node.get_path(), [n[0] for n in notes]))
-    print('segment %s (length %d, present %s)' % (c['text'], obj['len'], obj['pr']))
-    print('observed: is_syntax_valid per note %s; is_valid=%s (without notes %s); errors added by the notes %s'
-          % (c['syn'], c['valid'], c['base'], c['errs']))
+    print('%s %s' % (obj['map'], node.get_path()))
+    print('syntax notes written in the map XML: %s' % xn)
+    print('enforced by the loaded segment node: %s' % [[st] + sp for (st, sp, _s) in enf])
+    if c is not None:
+        print('segment %s (length %d, present %s)' % (c['text'], obj['len'], obj['pr']))
+        print('observed: is_syntax_valid per enforced entry %s; is_valid=%s (without notes %s); errors added by the notes %s'
+              % (c['syn'], c['valid'], c['base'], c['errs']))
     print('specification (T_Syntax) rejects at: %s' % ([[e[3], e[4]] for e in rej] or 'nothing - accepted'))
     return 1 if rej else 0
 
@@ -597,12 +640,14 @@ def run(tier, replay=None):
     nfull = sum(len(r['cases']) for r in recs if r['mode'] == 'full')
     chk.add_traces(ncases)
     chk.distinct_count += ncases
-    occ = sum(len(r['notes']) for r in recs if r['mode'] == 'full')
-    sigs = set((nt['text'], r['n']) for r in recs for nt in r['notes'])
+    occ = sum(len(r['xnotes']) for r in recs if r['mode'] == 'full')
+    sigs = set(rec_sig(r, y) for r in recs for y in r['cols'])
     chk.extra['table'] = {
         'maps_in_index': len(per_map), 'maps_loaded': len(loaded), 'maps_not_loadable_skipped': failed,
         'maps_with_per_occurrence_is_valid_checks': len(chosen) if tier == 'quick' else len(loaded),
         'segment_records': len(recs), 'note_occurrences_checked_through_is_valid': occ,
+        'notes_written_in_the_map_xml_compared_with_the_loaded_nodes': sum(len(r['xnotes']) for r in recs),
+        'entries_enforced_by_the_loaded_nodes': sum(len(r['enf']) for r in recs),
         'distinct_note_x_element_count_signatures': len(sigs),
         'cases': ncases, 'cases_through_segment_if_is_valid': nfull - sum(r.get('skipped', 0) for r in per_map),
         'cases_with_a_violated_note_reported': sum(1 for r in recs for c in r['cases'] if 'viol' in c['syn']),
@@ -613,7 +658,7 @@ def run(tier, replay=None):
             c = next((x for x in r['cases'] if x['errs']), r['cases'][-1])
             if not c.get('chk'):
                 continue
-            chk.sample({'recorded_case': {'map': r['map'], 'path': r['path'], 'notes': [n['text'] for n in r['notes']],
+            chk.sample({'recorded_case': {'map': r['map'], 'path': r['path'], 'notes': r['xnotes'],
                                           'segment': c['text'], 'is_syntax_valid': c['syn'], 'is_valid': c['valid'],
                                           'errors_added_by_notes': c['errs']}})
             break
@@ -621,6 +666,9 @@ def run(tier, replay=None):
         selftest(chk, recs)      # only meaningful on a log the specification accepts
     chk.exhaustive = (tier == 'thorough' and not chk.violations)
     chk.assumptions = [
+        'the notes of a segment are the <syntax> texts of the map XML with surrounding white space removed (read from the file, not from '
+        'the loaded map); a text that is not letter + two or more two-digit positions is not a note; segments are aligned with the '
+        'loaded nodes by node path (document order within one path)',
         'present = the element carries a non-empty value; the values used are plausible for the element definition, errors that the other '
         'validations raise for them are removed by comparing with the same call made with the notes of the node switched off',
         'the position of the element error of a violated note must be one of the positions the note mentions (the property does not say which)',
